@@ -36,7 +36,7 @@ def lae_value(cols_sel, ws, f, scale):
     return tot
 
 
-def lae_opt(cols, f, scale, k, wtype, F, weights_pool=None, max_used=None):
+def lae_opt(cols, f, scale, k, wtype, F, weights_pool=None, max_used=None, tuple_ok=None):
     """min over k routes (with repetition) and weights >= 0 of sum_e scale_e |f_e - sum_i w_i x_i(e)|.
     weights_pool: if given (solution_weights_superset), each route takes a distinct entry of the pool and at most
     max_used routes are used. Returns (value, witness)."""
@@ -54,6 +54,8 @@ def lae_opt(cols, f, scale, k, wtype, F, weights_pool=None, max_used=None):
                         best, wit = val, {"routes": list(routes), "weights": [pool[i] for i in idxs]}
         return best, wit
     for routes in itertools.combinations_with_replacement(range(n), k):
+        if tuple_ok is not None and not tuple_ok(routes):
+            continue
         sel = [cols[j] for j in routes]
         if wtype == "int":
             for ws in itertools.product(range(F + 1), repeat=k):
@@ -103,7 +105,7 @@ def _min_slack_int(need, sel, k, ub, best_total):
     return (best[0], found[0]) if found[0] is not None else (None, None)
 
 
-def mpe_opt(cols, f, scale, k, wtype, F, factors=None):
+def mpe_opt(cols, f, scale, k, wtype, F, factors=None, tuple_ok=None):
     """min total slack: routes (with repetition), weights w_i >= 0 and slacks rho_i >= 0 with, for every element,
     |f_e - sum_i w_i x_i(e)| * scale_e <= sum_i rho_i * factor_i * x_i(e).  factors: optional per-route slack factor
     (path-length scaling), aligned with cols.  int: exhaustive; float: vertex enumeration of the LP per route tuple
@@ -114,6 +116,8 @@ def mpe_opt(cols, f, scale, k, wtype, F, factors=None):
     best = None
     wit = None
     for routes in itertools.combinations_with_replacement(range(n), k):
+        if tuple_ok is not None and not tuple_ok(routes):
+            continue
         sel = [cols[j] for j in routes]
         fac = [1 if factors is None else factors[j] for j in routes]
         selg = [[c[j] * fc for j in range(m)] for c, fc in zip(sel, fac)]
